@@ -72,7 +72,7 @@ def gen():
                 muts.append({'file': fn, 'line': ln + 1, 'old': line, 'new': indent + 'pass', 'op': 'delete-statement'})
     # deterministic thinning: keep every k-th so the campaign stays bounded
     k = max(1, len(muts) // int(os.environ.get('AUTOMUT_N', '700')))
-    muts = muts[::k]
+    muts = muts[int(os.environ.get('AUTOMUT_OFFSET', '0')) % k::k]
     with open(os.path.join(OUT, 'mutants.jsonl'), 'w') as f:
         for i, m in enumerate(muts):
             m['id'] = i
